@@ -116,6 +116,7 @@ def parse_header():
                 a = " ".join(a.split())
                 mm = re.match(r"(.*?)(\w+)$", a)
                 alist.append(c_type(mm.group(1).strip()))
+                HEADER_PARAMS.setdefault(name, []).append(mm.group(2))
         fns[name] = (c_type(ret), alist)
     enums = {}
     em = re.search(r"enum pathrs_proc_base_t\s*\{(.*?)\}", src, flags=re.S)
@@ -197,6 +198,7 @@ def parse_go():
                     else:
                         classes.append("any")
             calls.append((name, classes, fn))
+            GO_CALL_ARGS.append((name, parts, fn))
         for m in re.finditer(r"C\.(PATHRS_\w+)", src_nc):
             consts.append(m.group(1))
         # named constants: pathrsProcSelf pathrsProcBase = C.PATHRS_PROC_SELF
@@ -209,6 +211,41 @@ def parse_go():
     if not calls:
         raise ParseError("no cgo calls found")
     return calls, sorted(set(consts))
+
+
+# parameter names of the header's declarations, and the argument expressions of every cgo call
+HEADER_PARAMS = {}
+GO_CALL_ARGS = []
+
+
+def norm_arg(expr):
+    """cPath -> path, cTarget -> target, C.int(rootFd) -> rootfd; None when the expression is not a plain variable or cast of one"""
+    m = re.match(r"^(?:C\.\w+\()?\s*&?(\w+)\s*\)?$", expr)
+    if not m:
+        return None
+    v = m.group(1)
+    if len(v) > 1 and v[0] == "c" and v[1].isupper():
+        v = v[1:]
+    return v.replace("_", "").lower()
+
+
+def arg_order_pairs():
+    """For every cgo call: when the variables passed are named like the header's parameters of that function (all of them
+    that are so named, at least two, no duplicates), each must stand at the position of the parameter it is named after:
+    (position in the call, position of the like-named parameter).  A call whose variables are not named after the
+    parameters yields nothing (no judgement)."""
+    out = []
+    for name, parts, fn in GO_CALL_ARGS:
+        params = [x.replace("_", "").lower() for x in HEADER_PARAMS.get(name, [])]
+        if len(params) != len(parts) or len(set(params)) != len(params):
+            continue
+        named = [(i, norm_arg(e)) for i, e in enumerate(parts)]
+        named = [(i, v) for i, v in named if v in params]
+        if len(named) < 2 or len({v for _, v in named}) != len(named):
+            continue
+        for i, v in named:
+            out.append((i, params.index(v), f"go-arg:{name}#{i}={v}"))
+    return out
 
 
 # (binding, exported name, header constant assigned to it)
@@ -320,6 +357,9 @@ def main():
     for binding, alias, const in ALIASES:
         want = bynorm.get(norm_const(alias))
         pairs.append((eidx[want] if want in eidx else 10000 + len(pairs), eidx.get(const, 20000 + len(pairs)), f"{binding}:{alias}={const}"))
+    # argument order at the cgo call sites: 30000 + position, so that these pairs cannot be mistaken for constants
+    for i, j, what in arg_order_pairs():
+        pairs.append((30000 + i, 30000 + j, what))
     out.append("/-- " + "; ".join(p[2] for p in pairs) + " -/")
     out.append("def aliases : List (Nat × Nat) := " + lean_list([f"({a}, {b})" for a, b, _ in pairs]) + "\n")
     out.append(f"def renamesOk : Bool := {'true' if ren.get('CProcfsBase') == 'pathrs_proc_base_t' and ren.get('CError') == 'pathrs_error_t' else 'false'}\n")
